@@ -179,6 +179,13 @@ func (p *Policy) triviaPieces(kind GapKind, must bool, prevLast byte, lay *Layou
 		n = 2
 	default:
 		n = 3
+		// now and then a long run (a file header of several comment lines, a block of notes in front of a
+		// member): lists of free-floating tokens are grown by append like every other list, and a
+		// reservation of a fixed number of slots per token shows only beyond that number
+		if p.Kind == PolicyFull && kind != GapWS && p.draw(6, "longrun") == 0 {
+			n = 4 + p.draw(13, "runlength")
+			lay.Classes["long-trivia-run"] = true
+		}
 	}
 	if (must || kind == GapMust) && n == 0 {
 		n = 1
